@@ -15,9 +15,12 @@
 (*                                                                         *)
 (* Mode "full": every call behaves exactly like the action of spec/Cache   *)
 (*   (result, returned envelopes, records afterwards); concurrent calls    *)
-(*   must have a linearization (internal step Lin between Call and Ret);   *)
-(*   an optimistic transaction that gave up (ErrConflict after the         *)
-(*   retries) is a failed call without effect.                             *)
+(*   must be explained by internal steps between Call and Ret: one atomic  *)
+(*   step Lin for Queue/Store/Remove/Get, snapshot + validated commit for  *)
+(*   the multi-key retrieval (Badger's optimistic transactions do not see  *)
+(*   or detect queue records inserted after their snapshot); an optimistic *)
+(*   transaction that gave up (ErrConflict after the retries) is a failed  *)
+(*   call without effect.                                                  *)
 (* Mode "C23":  only what the statement of C23 says (Cache!StepOK on the   *)
 (*   observed records; for concurrent sections the order-free accounting:  *)
 (*   a retrieval returns no duplicates, at most its limit, and over the    *)
@@ -28,19 +31,29 @@ EXTENDS TraceLib, FiniteSets
 
 CONSTANTS Mode, Procs, NoneC
 
+RECURSIVE SetToSortSeq(_)
+SetToSortSeq(X) == IF X = {} THEN <<>> ELSE LET m == CHOOSE x \in X : \A y \in X : x <= y IN <<m>> \o SetToSortSeq(X \ {m})
+
 PayloadU == {"p1", "p2", "p3"}
 VariantU == {"a", "b"}
 
 C == INSTANCE Cache WITH Payload <- PayloadU, Variant <- VariantU, None <- NoneC, Limits <- 0..3
 
-VARIABLES l, S, pend, nf, cr, rc
-vars == <<l, S, pend, nf, cr, rc>>
+VARIABLES l, S, pend, nf, cr, rc,
+          qid,    \* identity of every queue record, parallel to S.queue (concurrent sections, mode "full")
+          nid,    \* last identity handed out
+          vb      \* version of every body record (bumped by each write or delete)
+vars == <<l, S, pend, nf, cr, rc, qid, nid, vb>>
 
-NoPend == [p \in Procs |-> [busy |-> FALSE, lin |-> FALSE, ok |-> FALSE, r |-> <<>>, o |-> [op |-> "-"]]]
+NoSnap == [q |-> <<>>, i |-> <<>>, b |-> <<>>, v |-> <<>>]
+NoPend == [p \in Procs |-> [busy |-> FALSE, lin |-> FALSE, snapped |-> FALSE, ok |-> FALSE, r |-> <<>>,
+                            o |-> [op |-> "-"], snap |-> NoSnap]]
 Zero == [p \in PayloadU |-> 0]
 Credit(st) == [p \in PayloadU |-> C!Count(st.queue, p)]
+Ids(n) == [i \in 1..n |-> i]
 
-Init == l = 1 /\ S = C!InitState /\ pend = NoPend /\ nf = 0 /\ cr = Zero /\ rc = Zero
+Init == /\ l = 1 /\ S = C!InitState /\ pend = NoPend /\ nf = 0 /\ cr = Zero /\ rc = Zero
+        /\ qid = <<>> /\ nid = 0 /\ vb = Zero
 
 Ev == Trace[l]
 IsEvent(name) == l <= TraceLen /\ Ev.ev = name /\ l' = l + 1
@@ -52,9 +65,13 @@ Proj(obs) ==
 
 Quiet == \A p \in Procs : ~pend[p].busy
 
+\* at a quiescent point no snapshot is pending: identities and versions are renumbered
+Renumber(st) == qid' = Ids(Len(st.queue)) /\ nid' = Len(st.queue) /\ vb' = Zero
+
 Reset ==
     /\ IsEvent("Reset")
     /\ S' = C!InitState /\ pend' = NoPend /\ nf' = 0 /\ cr' = Zero /\ rc' = Zero
+    /\ Renumber(C!InitState)
 
 SeqOp ==
     /\ IsEvent("Op")
@@ -65,14 +82,15 @@ SeqOp ==
            ELSE C!StepOK(S, o, Ev.ok, Ev.r, obs)
         /\ S' = obs
         /\ nf' = Len(obs.queue) /\ cr' = Credit(obs) /\ rc' = Zero
+        /\ Renumber(obs)
     /\ UNCHANGED pend
 
 Call ==
     /\ IsEvent("Call")
     /\ ~pend[Ev.p].busy
-    /\ pend' = [pend EXCEPT ![Ev.p] = [busy |-> TRUE, lin |-> FALSE, ok |-> FALSE, r |-> <<>>, o |-> Ev.o]]
+    /\ pend' = [pend EXCEPT ![Ev.p] = [NoPend[Ev.p] EXCEPT !.busy = TRUE, !.o = Ev.o]]
     /\ cr' = IF Ev.o.op = "Queue" THEN [cr EXCEPT ![Ev.o.p] = @ + 1] ELSE cr
-    /\ UNCHANGED <<S, nf, rc>>
+    /\ UNCHANGED <<S, nf, rc, qid, nid, vb>>
 
 \* The return event of the call goroutine p has pending: the first Ret of p at or after the
 \* cursor. Looking at it when choosing the linearization point only prunes the search (a
@@ -81,12 +99,22 @@ RECURSIVE FindRet(_, _)
 FindRet(p, j) == IF Trace[j].ev = "Ret" /\ Trace[j].p = p THEN j ELSE FindRet(p, j + 1)
 RetOf(p) == Trace[FindRet(p, l)]
 
-\* internal linearization point of a pending call (mode "full"); no line is consumed.
-\* A queue record written by a concurrent Queue is keyed by the clock value read before the
-\* commit: it may sort anywhere among the records written since the last quiescent point.
+InsertAt(s, pos, x) == SubSeq(s, 1, pos - 1) \o <<x>> \o SubSeq(s, pos, Len(s))
+Bump(ps) == [q \in PayloadU |-> IF q \in ps THEN vb[q] + 1 ELSE vb[q]]
+
+(* Concurrent calls, mode "full". The cache functions are optimistic Badger transactions:    *)
+(* they read a SNAPSHOT taken when they start and commit later; a commit fails (ErrConflict) *)
+(* iff a key it READ was written in between; inserted keys it never saw (phantoms) are not   *)
+(* detected. Queue / Store / Remove / Get read at most the single key that decides their     *)
+(* outcome, so each is equivalent to one atomic step (Lin) between call and return.          *)
+(* CacheRetrieveTransactions reads many keys: it is modelled in two internal steps, Snap     *)
+(* (take the snapshot) and Commit (validate what was read, delete what was scanned): queue   *)
+(* records inserted after Snap are neither returned nor deleted by that retrieval.           *)
+(* A queue record written by a concurrent Queue is keyed by the clock value read before the  *)
+(* commit: it may sort anywhere among the records written since the last quiescent point.    *)
 Lin(p) ==
     /\ Mode = "full"
-    /\ pend[p].busy /\ ~pend[p].lin
+    /\ pend[p].busy /\ ~pend[p].lin /\ pend[p].o.op # "Retrieve"
     /\ LET o == pend[p].o  ret == RetOf(p) IN
          \/ /\ ret.ok
             /\ \E pos \in (IF o.op = "Queue" THEN (nf + 1)..(Len(S.queue) + 1) ELSE {0}) :
@@ -94,13 +122,51 @@ Lin(p) ==
                    /\ a.ok /\ a.r = ret.r
                    /\ S' = a.S
                    /\ pend' = [pend EXCEPT ![p].lin = TRUE, ![p].ok = a.ok, ![p].r = a.r]
-                   /\ nf' = IF o.op = "Retrieve"
-                            THEN (IF C!Scan(S, o.l).n >= nf THEN 0 ELSE nf - C!Scan(S, o.l).n)
-                            ELSE nf
+                   /\ IF o.op = "Queue" /\ Len(a.S.queue) > Len(S.queue)
+                      THEN qid' = InsertAt(qid, pos, nid + 1) /\ nid' = nid + 1
+                      ELSE UNCHANGED <<qid, nid>>
+                   /\ vb' = IF a.S.body = S.body /\ o.op # "Queue" THEN vb
+                            ELSE IF o.op = "Remove" THEN Bump(C!Range(o.ps))
+                            ELSE IF a.S = S THEN vb ELSE Bump({o.p})
+            /\ nf' = nf
          \/ /\ ~ret.ok /\ o.op # "Get"     \* optimistic transaction gave up: failed no-op
             /\ S' = S /\ nf' = nf
             /\ pend' = [pend EXCEPT ![p].lin = TRUE, ![p].ok = FALSE, ![p].r = <<>>]
+            /\ UNCHANGED <<qid, nid, vb>>
     /\ UNCHANGED <<l, cr, rc>>
+
+Snap(p) ==
+    /\ Mode = "full"
+    /\ pend[p].busy /\ ~pend[p].lin /\ ~pend[p].snapped /\ pend[p].o.op = "Retrieve"
+    /\ pend' = [pend EXCEPT ![p].snapped = TRUE,
+                            ![p].snap = [q |-> S.queue, i |-> qid, b |-> S.body, v |-> vb]]
+    /\ UNCHANGED <<l, S, nf, cr, rc, qid, nid, vb>>
+
+Commit(p) ==
+    /\ Mode = "full"
+    /\ pend[p].busy /\ ~pend[p].lin /\ pend[p].snapped
+    /\ LET o    == pend[p].o
+           sn   == pend[p].snap
+           ret  == RetOf(p)
+           sc   == C!Scan([body |-> sn.b, order |-> S.order, queue |-> sn.q], o.l)
+           sids == { sn.i[j] : j \in 1..sc.n }           \* queue records read (and to delete)
+           sps  == { sn.q[j] : j \in 1..sc.n }           \* payloads whose body record was read
+           r    == [j \in 1..Len(sc.idx) |-> [p |-> sn.q[sc.idx[j]], v |-> sn.b[sn.q[sc.idx[j]]]]]
+           conflict == \/ \E id \in sids : id \notin C!Range(qid)
+                       \/ \E q \in sps : vb[q] # sn.v[q]
+           keep == { j \in DOMAIN qid : qid[j] \notin sids }
+           kseq == SetToSortSeq(keep)
+       IN
+         \/ /\ ret.ok /\ ~conflict /\ r = ret.r
+            /\ S' = [S EXCEPT !.queue = [j \in DOMAIN kseq |-> S.queue[kseq[j]]],
+                              !.order = [q \in PayloadU |-> IF q \in sps THEN FALSE ELSE @[q]]]
+            /\ qid' = [j \in DOMAIN kseq |-> qid[kseq[j]]]
+            /\ nf' = nf - Cardinality({ j \in DOMAIN qid : j <= nf /\ qid[j] \in sids })
+            /\ pend' = [pend EXCEPT ![p].lin = TRUE, ![p].ok = TRUE, ![p].r = r]
+         \/ /\ ~ret.ok
+            /\ S' = S /\ qid' = qid /\ nf' = nf
+            /\ pend' = [pend EXCEPT ![p].lin = TRUE, ![p].ok = FALSE, ![p].r = <<>>]
+    /\ UNCHANGED <<l, cr, rc, nid, vb>>
 
 RetFull ==
     /\ Mode = "full"
@@ -109,7 +175,7 @@ RetFull ==
     /\ pend[Ev.p].ok = Ev.ok
     /\ (Ev.ok => pend[Ev.p].r = Ev.r)
     /\ pend' = [pend EXCEPT ![Ev.p] = NoPend[Ev.p]]
-    /\ UNCHANGED <<S, nf, cr, rc>>
+    /\ UNCHANGED <<S, nf, cr, rc, qid, nid, vb>>
 
 \* order-free accounting of the property for concurrent sections
 RetMon ==
@@ -126,7 +192,7 @@ RetMon ==
               /\ \A q \in PayloadU : rc'[q] <= cr[q]
          ELSE rc' = rc
     /\ pend' = [pend EXCEPT ![Ev.p] = NoPend[Ev.p]]
-    /\ UNCHANGED <<S, nf, cr>>
+    /\ UNCHANGED <<S, nf, cr, qid, nid, vb>>
 
 Obs ==
     /\ IsEvent("Obs")
@@ -136,9 +202,10 @@ Obs ==
            THEN obs = S
            ELSE \A q \in PayloadU : C!Count(obs.queue, q) + rc[q] <= cr[q]
         /\ S' = obs /\ nf' = Len(obs.queue) /\ cr' = Credit(obs) /\ rc' = Zero
+        /\ Renumber(obs)
     /\ UNCHANGED pend
 
-Next == Reset \/ SeqOp \/ Call \/ RetFull \/ RetMon \/ Obs \/ \E p \in Procs : Lin(p)
+Next == Reset \/ SeqOp \/ Call \/ RetFull \/ RetMon \/ Obs \/ \E p \in Procs : Lin(p) \/ Snap(p) \/ Commit(p)
 
 Spec == Init /\ [][Next]_vars
 
